@@ -116,8 +116,10 @@ PROPS = {
         'not_decided': 'bit-identical numerics across processes',
     },
     'C05': {
-        'rules': ['R24'],
-        'decided': 'shape law for the constant part of Affine/RoAffine results',
+        'rules': ['R24', 'R03'],
+        'decided': 'shape law for the constant part of Affine/RoAffine results; operations build new '
+                   'objects and never edit their operands in place (NumPy semantics), including through '
+                   'shared sparse buffers (x + 0, csr_matrix(x.linear))',
         'not_decided': 'values, the linear part, selector-matrix index arithmetic',
     },
 }
